@@ -74,7 +74,7 @@ class C08(Prop):
     def generate(self, rng: random.Random, tier: str) -> Iterable[Dict[str, Any]]:
         quick = tier == "quick"
         cases: List[Dict[str, Any]] = []
-        n = 650 if quick else 20000
+        n = 650 if quick else 15000
         for i in range(n):
             r = rng.random()
             if r < 0.5:
